@@ -19,22 +19,25 @@ Definition g_row (c : pcfg) (j : nat) : nat := 1 + pp c + j.
 Definition kmembers (c : pcfg) : list (list nat) :=
   seq 0 (pW c) :: kcols_pk (pp c) (pk c) ++ krows_pk (pp c) (pk c).
 
-(* kinds as in the harness: 1 = all_reduce, 2 = broadcast; dtype is not modelled (0) *)
-Definition ar (n : nat) : inst := mkI 0 1 n 0 0.
-Definition bc (g n root : nat) : inst := mkI g 2 n 0 (S root).
+(* kinds as in the harness: 1 = all_reduce, 2 = broadcast; dt = the dtype tag of the tensor *)
+Definition ar (dt n : nat) : inst := mkI 0 1 n dt 0.
+Definition bc (g dt n root : nat) : inst := mkI g 2 n dt (S root).
 
 (* ---- factor allreduce on the world group, direct or through the bucket of C08 ---- *)
 Definition bnumel (b : bucket) : nat := fold_right (fun it acc => i_numel it + acc) 0 b.
 Definition fac_item (c : pcfg) (n : nat) : item :=
-  {| i_key := 0; i_tid := 0; i_numel := n; i_esize := pfsz c; i_dtype := 0 |}.
+  {| i_key := 0; i_tid := 0; i_numel := n; i_esize := pfsz c; i_dtype := pfdt c |}.
+(* a flat buffer has the dtype of the tensors packed into it *)
+Definition bdt (b : bucket) : nat := match b with [] => 0 | it :: _ => i_dtype it end.
+Definition bar (b : bucket) : inst := ar (bdt b) (bnumel b).
 
 (* cap = None: AllreduceMethod.ALLREDUCE; Some bytes: ALLREDUCE_BUCKETED *)
 Definition fac_add (c : pcfg) (cap : option nat) (bs : bstate) (n : nat) : bstate * list inst :=
   if Nat.eqb (pW c) 1 then (bs, [])                        (* get_world_size(group) == 1: nothing is sent *)
   else match cap with
-       | None => (bs, [ar n])
+       | None => (bs, [ar (pfdt c) n])
        | Some cp => let '(bs', em) := bstep cp bs (Add (pW c) (fac_item c n)) in
-                    (bs', map (fun b => ar (bnumel b)) em)
+                    (bs', map bar em)
        end.
 Fixpoint fac_adds (c : pcfg) (cap : option nat) (bs : bstate) (ns : list nat) : bstate * list inst :=
   match ns with
@@ -45,7 +48,7 @@ Fixpoint fac_adds (c : pcfg) (cap : option nat) (bs : bstate) (ns : list nat) : 
 Definition fac_flush (cap : option nat) (bs : bstate) : bstate * list inst :=
   match cap with
   | None => (bs, [])
-  | Some cp => let '(bs', em) := bstep cp bs Flush in (bs', map (fun b => ar (bnumel b)) em)
+  | Some cp => let '(bs', em) := bstep cp bs Flush in (bs', map bar em)
   end.
 
 (* ---- second-order data of one layer: (elements, root) of every broadcast, in issue order ---- *)
@@ -56,7 +59,7 @@ Definition inv_msgs (c : pcfg) (l : player) : list (nat * nat) :=
   | InverseM => [(sym_numel c (na l), wa l); (sym_numel c (ng l), wg l)]
   end.
 Definition inv_layer (c : pcfg) (l : player) : list inst :=
-  map (fun m => bc (g_col c (pcol c l)) (fst m) (snd m)) (inv_msgs c l).
+  map (fun m => bc (g_col c (pcol c l)) (pidt c) (fst m) (snd m)) (inv_msgs c l).
 
 (* what rank r issues: guarded by is_grad_worker, on "the layer's gradient-worker group" *)
 Definition inv_rank (c : pcfg) (r : nat) (ls : list player) : list inst :=
@@ -67,10 +70,10 @@ Definition inv_all (c : pcfg) (ls : list player) : list inst :=
 
 (* gradient broadcast: every rank, on ITS receiver group, from ITS source *)
 Definition grad_rank (c : pcfg) (r : nat) (ls : list player) : list inst :=
-  if bcast_grad c then map (fun l => bc (g_row c (r / pp c)) (ng l * na l) (src_of c r l)) ls else [].
+  if bcast_grad c then map (fun l => bc (g_row c (r / pp c)) (pgdt c) (ng l * na l) (src_of c r l)) ls else [].
 Definition grad_all (c : pcfg) (ls : list player) : list inst :=
   if bcast_grad c
-  then flat_map (fun l => map (fun j => bc (g_row c j) (ng l * na l) (pcol c l + j * pp c)) (seq 0 (pk c))) ls
+  then flat_map (fun l => map (fun j => bc (g_row c j) (pgdt c) (ng l * na l) (pcol c l + j * pp c)) (seq 0 (pk c))) ls
   else [].
 
 (* ---- communication events, derived from the control machine's actions ---- *)
@@ -95,7 +98,7 @@ Definition cstep (c : pcfg) (cap : option nat) (ls : list player) (who : option 
   | CInv => (bs, match who with Some r => inv_rank c r (rev ls) | None => inv_all c (rev ls) end)
   | CInvLoad => (bs, match who with Some r => inv_rank c r ls | None => inv_all c ls end)
   | CGrad => (bs, match who with Some r => grad_rank c r (rev ls) | None => grad_all c (rev ls) end)
-  | CUser ns => (bs, if Nat.eqb (pW c) 1 then [] else map ar ns)
+  | CUser ns => (bs, if Nat.eqb (pW c) 1 then [] else map (ar (pgdt c)) ns)
   end.
 
 Fixpoint crun (c : pcfg) (cap : option nat) (ls : list player) (who : option nat) (bs : bstate) (es : list cev)
